@@ -46,6 +46,7 @@ type TLCResult struct {
 	Status            string // ok | invariant:<name> | deadlock | liveness | postcondition | error | timeout
 	WallS             float64
 	Tail              string
+	Marks             []string // "@@<TAG> ..." lines other than behaviours
 	ZeroCoverage      []string
 }
 
@@ -170,6 +171,8 @@ func RunTLC(o TLCOpts) (*TLCResult, error) {
 				if o.OnBeh != nil {
 					o.OnBeh(json.RawMessage(unquoteTLA(line)[len("@@BEH "):]))
 				}
+			} else if strings.HasPrefix(line, `"@@`) {
+				res.Marks = append(res.Marks, unquoteTLA(line))
 			} else {
 				if m := reStats.FindStringSubmatch(line); m != nil {
 					res.Generated, _ = strconv.ParseInt(m[1], 10, 64)
@@ -187,7 +190,7 @@ func RunTLC(o TLCOpts) (*TLCResult, error) {
 					res.Status = "deadlock"
 				} else if strings.Contains(line, "Temporal properties were violated") {
 					res.Status = "liveness"
-				} else if strings.Contains(line, "Postcondition") && strings.Contains(line, "violated") {
+				} else if strings.Contains(line, "Postcondition") && (strings.Contains(line, "violated") || strings.Contains(line, "is false")) {
 					res.Status = "postcondition"
 				} else if strings.HasPrefix(line, "Error:") && res.Status == "ok" {
 					res.Status = "error: " + line
@@ -241,6 +244,19 @@ func (c *Ctx) MustTLC(o TLCOpts) *TLCResult {
 	}
 	c.AddTLC(r)
 	if r.Status != "ok" {
+		c.Inconclusive("TLC %s/%s: %s\n%s", o.Module, o.Cfg, r.Status, r.Tail)
+	}
+	return r
+}
+
+// MustTLCTrace runs a trace-validation config: acceptance is decided by the caller from Status.
+func (c *Ctx) MustTLCTrace(o TLCOpts) *TLCResult {
+	r, err := RunTLC(o)
+	if err != nil {
+		c.Fatalf("TLC %s/%s did not run: %v", o.Module, o.Cfg, err)
+	}
+	c.AddTLC(r)
+	if strings.HasPrefix(r.Status, "error") || r.Status == "timeout" {
 		c.Inconclusive("TLC %s/%s: %s\n%s", o.Module, o.Cfg, r.Status, r.Tail)
 	}
 	return r
